@@ -214,6 +214,15 @@ def doWrap (s : AState) : AState × Bool :=
       ({ s with cur := some t, bstack := bs, yyin := (s.bufs.getD t {}).file <|> s.yyin }, true)
     | _, _ => (s, false)
   | some f :: rest =>
+    if 2000000 ≤ f then
+      -- yywrap() switches back to a buffer that was left for an include (registry entry f - 2000000) and says "go on"
+      let s := { s with wraps := rest }.emit "wrap -3"
+      match s.reg.getD (f - 2000000) none with
+      | some id =>
+        if s.cur == some id then (s, false)
+        else ({ s with cur := some id, yyin := (s.bufs.getD id {}).file <|> s.yyin }, true)
+      | none => (s, false)
+    else
     let s := { s with wraps := rest, yyin := some f }.emit s!"wrap {f}"
     -- YY_NEW_FILE: yyrestart(yyin) re-initialises the current buffer over the new source
     let b := s.curBuf
